@@ -53,7 +53,7 @@ func genC04(t *rapid.T) C04Case {
 	n := rapid.IntRange(1, 14).Draw(t, "nops")
 	for i := 0; i < n; i++ {
 		op := C04Op{Op: rapid.SampledFrom([]string{"init", "init", "badinit", "req", "req", "req", "notif", "resp", "get", "get", "closestream", "delete", "delete", "deleterace"}).Draw(t, "op")}
-		op.Class = rapid.SampledFrom([]string{"none", "live", "live", "live", "dead", "dead", "never", "garbage"}).Draw(t, "class")
+		op.Class = rapid.SampledFrom([]string{"none", "live", "live", "live", "dead", "dead", "never", "garbage", "near"}).Draw(t, "class")
 		op.Sess = rapid.IntRange(0, 4).Draw(t, "sess")
 		switch op.Op {
 		case "req":
@@ -232,6 +232,20 @@ func execC04(c C04Case) *Failure {
 			return "never", never
 		case "garbage":
 			return "garbage", op.garbage()
+		case "near":
+			// a look-alike of a live id that the server never issued: other case of its letters, one character less or more
+			for _, id := range issued {
+				if !live[id] {
+					continue
+				}
+				for k := 0; k < 3; k++ {
+					v := []string{strings.ToUpper(id), id[:len(id)-1], id + "0"}[(op.Sess+k)%3]
+					if v != id && !live[v] {
+						return "never", v
+					}
+				}
+			}
+			return "never", never
 		}
 		var pool []string
 		for _, id := range issued {
